@@ -207,7 +207,7 @@ BREAKS = ["opacity-256", "name-256", "version-3", "version-0", "version-70000", 
 
 def run(ctx: core.Run):
     t0 = time.time()
-    tables = extract_c01.gen_codec(ctx)
+    tables = ctx.regenerate(extract_c01.gen_codec) or {}     # a reshaped source is a broken tie, never exit 2
     ctx.prove(["PsdVerif.Props.C01"])
     ctx.trusted_base += [
         "Lean 4.33 kernel; axioms allowed: propext, Classical.choice, Quot.sound (audited per theorem)",
@@ -463,7 +463,7 @@ def run(ctx: core.Run):
         "fixtures re-parsed and re-written. A case is one document x padding (writer), one byte string (reader), or one "
         "primitive call; all are non-trivial; distinct = distinct serialised skeletons / requests. Payload oracle: up to "
         "%d instances per element class from the fixtures + hand-made variants." % per_class)
-    ctx.extra["generated_tables"] = {k: tables[k] for k in ("bigKeys", "headerFormat", "channelsMax", "heightMax")}
+    ctx.extra["generated_tables"] = {k: tables.get(k) for k in ("bigKeys", "headerFormat", "channelsMax", "heightMax")}
     ctx.notes += [
         "Scope: typed skeleton structures instead of DESIGN's untyped Val universe; every payload class is opaque bytes in "
         "the model and is covered by the Python oracle only (listed under model_coverage).",
@@ -477,9 +477,56 @@ def run(ctx: core.Run):
         "Stated in DESIGN, not proved here: codec laws of the payload classes (descriptors, effects, patterns, linked "
         "layers, vector data, adjustments, image-resource payloads), LayerInfoBlock (Lr16/Lr32) as a structured payload.",
     ]
+    # ------------------------------------------------------------------ deterministic sweeps (every run, every tier)
+    # (1) boundary documents of the skeleton: model writer, model reader, Python oracle
+    import gen_c01_extra
+    gen_c01_extra.run_extra(ctx, doc_tokens, raw_parse_tokens)
+    # (2) descriptors: every terminology member / non-term key in every key position, units, OSTypes
+    systematic_payloads(ctx, classes, sink, per_class=(3 if quick else 60))
     ctx.extra["phase_seconds"] = round(time.time() - t0, 1)
     if ctx.tier == "thorough":
         ctx.recheck(["PsdVerif.Props.C01"])
+
+
+def systematic_payloads(ctx, classes, sink, per_class):
+    """payload_oracle.sweep / field_boundary_sweep -> failures with the same input format as check_payload"""
+    def report(sig, label, x, v, kw, data, what):
+        ctx.fail(sig, what,
+                 {"class": f"{type(x).__module__}.{type(x).__name__}" if x is not None else None, "kwargs": kw,
+                  "bytes": hx(data), "repr": (describe(x)[:600] if x is not None else None), "case": label},
+                 v, "equal structure and identical second tobytes()")
+
+    try:
+        n, fails, excluded = po.sweep()
+    except Exception as e:  # noqa  (e.g. a descriptor class no longer constructible the way the sweep builds it)
+        ctx.disagree("descriptor sweep could not be built on the current source: %s" % type(e).__name__, {"error": repr(e)[:300]})
+        n, fails, excluded = 0, [], []
+    ctx.evaluations += n
+    ctx.hist("descriptor_sweep", "instances", n)
+    ctx.hist("descriptor_sweep", "failures", len(fails))
+    for sig, label, x, v, kw, data in fails:
+        report(sig, label, x, v, kw, data,
+               "a descriptor structure holding this key / class id / enum value / unit / item type does not survive "
+               "tobytes -> frombytes (systematic sweep over psd_tools.terminology and key lengths 1..12)")
+    ctx.extra["descriptor_sweep_format_excluded (information)"] = excluded
+    try:
+        n2, fails2, not_stored = po.field_boundary_sweep(classes, sink, per_class)
+    except Exception as e:  # noqa
+        ctx.disagree("payload field sweep could not be built on the current source: %s" % type(e).__name__, {"error": repr(e)[:300]})
+        n2, fails2, not_stored = 0, [], []
+    ctx.evaluations += n2
+    ctx.hist("payload_field_sweep", "instances", n2)
+    ctx.hist("payload_field_sweep", "failures", len(fails2))
+    for sig, label, x, v, kw, data in fails2:
+        report(sig, label, x, v, kw, data,
+               "a payload instance that round-trips stops doing so when one scalar field is set to its lower boundary "
+               "(0, 0.0, False/True, empty string) or one enum field to another member")
+    ctx.extra["payload_fields_not_stored_in_that_state (information)"] = sorted(set(not_stored))[:40]
+    ctx.rule += (" Added: descriptor sweep (every member of every enum of psd_tools.terminology and non-term keys of length "
+                 "0..12 incl. non-ASCII bytes, each as descriptor key, classID, Enumerated type/value, Reference items, "
+                 "ObjectArray/GlobalObject/DescriptorBlock(2) key; every Unit; every registered OSType item) and a field "
+                 "sweep over the opaque payload classes (each scalar field -> 0 / 0.0 / flipped / empty, each enum field -> "
+                 "every member; variant selectors excepted).")
 
 
 def variants():
